@@ -1,6 +1,6 @@
 (** Property C14 — the theorems the check counts as obligations.  Nothing but
     statements closed by [exact] and [Print Assumptions]. *)
-From HS Require Import Base.Prelude C14.Model C14.LsmProofs.
+From HS Require Import Base.Prelude C14.Model C14.LsmProofs C14.ConcProofs.
 Local Open Scope Z_scope.
 
 (** LSM tree, sequential operations: after ANY sequence of put/delete (any
@@ -29,3 +29,18 @@ Theorem c14_lsm_compaction_preserves_lookups : forall s ls k,
   same_or_dropped (lsget k ls) (lsget k (compact_levels s ls)).
 Proof. exact compact_lookup. Qed.
 Print Assumptions c14_lsm_compaction_preserves_lookups.
+
+(** Overlapping operations (generator API as a step machine, any schedule):
+    the full overlap clause is REFUTED on the faithful model — known finding
+    C14-lsm-compaction-not-isolated (a deleted key is readable again; the read
+    overlaps nothing). *)
+Theorem c14_lsm_overlap_refuted : ~ lsm_overlap_statement.
+Proof. exact lsm_overlap_refuted. Qed.
+Print Assumptions c14_lsm_overlap_refuted.
+
+(** Second, independent mechanism: a scan suspended while a compaction swaps
+    the level it iterates over loses keys — known finding
+    C14-lsm-read-overlaps-compaction. *)
+Theorem c14_lsm_scan_overlap_refuted : reads_ok (history w2_cfg bl_exact w2_sched) = false.
+Proof. exact lsm_scan_overlap_refuted. Qed.
+Print Assumptions c14_lsm_scan_overlap_refuted.
